@@ -172,41 +172,44 @@ Proof.
   - simpl. intro H; inversion H; subst. split; [apply dims_kept_refl|auto].
 Qed.
 
+Lemma set_teacher_kept (n m : node) t : dims_kept n m -> dims_kept n (set_teacher m t).
+Proof. intro K. eapply dims_kept_trans; [exact K|apply dims_kept_set_teacher]. Qed.
+
 Lemma train_op_after (n n' : node) x y : after n (train_op n x y) = Some n' ->
-  dims_kept n n' /\ (wf n -> wf n').
+  dims_kept n n' /\ (wf n -> wf n') /\ teacher n' = None.
 Proof.
   unfold train_op. destruct (seq2 x) as [[t f]|]; [|discriminate].
   set (ydata := match y with YData yd => seq2 yd | _ => None end). clearbody ydata.
   destruct (teacher n) as [td|].
-  - assert (G : after n
-      (match (if initialized n then ROk n else initialize n [f] (match ydata with Some (_, m) => Some m | None => td end)) with
-       | RErr e => Err PInit e n
+  - assert (G : after n (match (if initialized n then ROk n else initialize n [f] (match ydata with Some (_, m) => Some m | None => td end)) with
+       | RErr e => Err PInit e (set_teacher n None)
        | ROk n1 =>
            if negb (match input_dim n1 with Some d => lnat_eqb d [f] | None => false end) then Irregular
            else match td with
-                | None => Err PCore RuntimeError n1
+                | None => Err PCore RuntimeError (set_teacher n1 None)
                 | Some tdim => if width n1 =? tdim
                                then Ok (set_teacher (bump_params (bump_state n1) false) None) (Some (t, width n1))
                                else Irregular
                 end
-       end) = Some n' -> dims_kept n n' /\ (wf n -> wf n')).
+       end) = Some n' -> dims_kept n n' /\ (wf n -> wf n') /\ teacher n' = None).
     { destruct (if initialized n then ROk n else initialize n [f] _) as [n1|] eqn:E.
       - apply init_if_needed_ok in E as (K & I & W & _).
         destruct (negb _); [discriminate|]. destruct td as [tdim|].
-        + destruct (width n1 =? tdim); [|discriminate]. simpl. intro H; inversion H; subst; clear H. split.
-          * eapply dims_kept_trans; [exact K|]. eapply dims_kept_trans; [apply dims_kept_bump_state|].
-            eapply dims_kept_trans; [apply dims_kept_bump_params|apply dims_kept_set_teacher].
+        + destruct (width n1 =? tdim); [|discriminate]. simpl. intro H; inversion H; subst; clear H. split; [|split; [|reflexivity]].
+          * apply set_teacher_kept. eapply dims_kept_trans; [exact K|].
+            eapply dims_kept_trans; [apply dims_kept_bump_state|apply dims_kept_bump_params].
           * intro Wn. apply wf_set_teacher, wf_bump_params, wf_bump_state; auto.
-        + simpl. intro H; inversion H; subst. auto.
-      - simpl. intro H; inversion H; subst. split; [apply dims_kept_refl|auto]. }
+        + simpl. intro H; inversion H; subst. split; [apply set_teacher_kept; exact K|split; [intro Wn; apply wf_set_teacher; auto|reflexivity]].
+      - simpl. intro H; inversion H; subst. split; [apply dims_kept_set_teacher|split; [apply wf_set_teacher|reflexivity]]. }
     destruct y; destruct ydata as [[ty m]|]; try exact G; discriminate.
   - destruct ydata as [[ty m]|]; [|discriminate]. destruct (negb _); [discriminate|].
     destruct (if initialized n then ROk n else initialize n [f] (Some m)) as [n1|] eqn:E.
     + apply init_if_needed_ok in E as (K & I & W & _).
-      destruct (_ && _); [|discriminate]. simpl. intro H; inversion H; subst; clear H. split.
-      * eapply dims_kept_trans; [exact K|]. eapply dims_kept_trans; [apply dims_kept_bump_state|apply dims_kept_bump_params].
-      * intro Wn. apply wf_bump_params, wf_bump_state; auto.
-    + simpl. intro H; inversion H; subst. split; [apply dims_kept_refl|auto].
+      destruct (_ && _); [|discriminate]. simpl. intro H; inversion H; subst; clear H. split; [|split; [|reflexivity]].
+      * apply set_teacher_kept. eapply dims_kept_trans; [exact K|].
+        eapply dims_kept_trans; [apply dims_kept_bump_state|apply dims_kept_bump_params].
+      * intro Wn. apply wf_set_teacher, wf_bump_params, wf_bump_state; auto.
+    + simpl. intro H; inversion H; subst. split; [apply dims_kept_set_teacher|split; [apply wf_set_teacher|reflexivity]].
 Qed.
 
 Lemma step_after (n n' : node) (o : op) : after n (step n o) = Some n' -> dims_kept n n' /\ (wf n -> wf n').
@@ -224,7 +227,7 @@ Proof.
     + fold (registered n y'). intro H.
       assert (A : after (registered n y') (train_op (registered n y') x' y') = Some n').
       { destruct (train_op (registered n y') x' y'); simpl in *; exact H. }
-      apply train_op_after in A as (K & W). destruct (registered_kept n y') as (K0 & W0 & _).
+      apply train_op_after in A as (K & W & _). destruct (registered_kept n y') as (K0 & W0 & _).
       split; [eapply dims_kept_trans; eauto|auto].
     + simpl. intro H; inversion H; subst. split; [apply dims_kept_refl|auto].
   - destruct (check_xy n x _ true false true) as [[x' y']|e].
@@ -272,23 +275,23 @@ Proof.
   - intro H; inversion H; auto.
 Qed.
 
-Lemma train_op_err (n n' : node) x y p e : train_op n x y = Err p e n' -> p = PCore \/ (p = PInit /\ n' = n).
+Lemma train_op_err (n n' : node) x y p e : train_op n x y = Err p e n' ->
+  p = PCore \/ (p = PInit /\ n' = set_teacher n None).
 Proof.
   unfold train_op. destruct (seq2 x) as [[t f]|]; [|discriminate].
   set (ydata := match y with YData yd => seq2 yd | _ => None end). clearbody ydata.
   destruct (teacher n) as [td|].
-  - assert (G :
-      (match (if initialized n then ROk n else initialize n [f] (match ydata with Some (_, m) => Some m | None => td end)) with
-       | RErr e => Err PInit e n
+  - assert (G : (match (if initialized n then ROk n else initialize n [f] (match ydata with Some (_, m) => Some m | None => td end)) with
+       | RErr e => Err PInit e (set_teacher n None)
        | ROk n1 =>
            if negb (match input_dim n1 with Some d => lnat_eqb d [f] | None => false end) then Irregular
            else match td with
-                | None => Err PCore RuntimeError n1
+                | None => Err PCore RuntimeError (set_teacher n1 None)
                 | Some tdim => if width n1 =? tdim
                                then Ok (set_teacher (bump_params (bump_state n1) false) None) (Some (t, width n1))
                                else Irregular
                 end
-       end) = Err p e n' -> p = PCore \/ (p = PInit /\ n' = n)).
+       end) = Err p e n' -> p = PCore \/ (p = PInit /\ n' = set_teacher n None)).
     { destruct (if initialized n then ROk n else initialize n [f] _) as [n1|].
       - destruct (negb _); [discriminate|]. destruct td as [tdim|].
         + destruct (width n1 =? tdim); discriminate.
@@ -300,6 +303,12 @@ Proof.
     + destruct (_ && _); discriminate.
     + intro H; inversion H; auto.
 Qed.
+
+Lemma set_teacher_id (n : node) : teacher n = None -> set_teacher n None = n.
+Proof. destruct n; simpl. intro H; subst. reflexivity. Qed.
+
+Lemma set_teacher_registered (n : node) y' : set_teacher (registered n y') None = set_teacher n None.
+Proof. destruct y'; reflexivity. Qed.
 
 Definition op_x (o : op) : data :=
   match o with OCall x | ORun x | OTrain x _ | OPartialFit x _ | OFit x _ => x end.
@@ -324,7 +333,7 @@ Qed.
 Lemma reject_before_change (n n' : node) (o : op) (p : phase) (e : exn) :
   step n o = Err p e n' -> p <> PCore ->
   same_node n n' /\
-  (is_fit o = false \/ p = PSupport -> p <> PInit \/ (forall td, op_y o <> Some (DTeacher td)) -> n' = n) /\
+  (is_fit o = false \/ p = PSupport -> teacher n = None -> n' = n) /\
   (is_fit o = true -> p <> PSupport -> n' = clean_buffers n).
 Proof.
   unfold step. destruct (negb (supported (nkind n) o)).
@@ -341,9 +350,8 @@ Proof.
     + intro H; inversion H; subst. intros _. split; [apply same_node_refl|]. split; auto. discriminate.
   - destruct (check_xy n x y false false true) as [[x' y']|e0] eqn:C.
     + fold (registered n y'). intros H Hp. apply train_op_err in H as [H|[H1 H2]]; [contradiction|subst].
-      destruct (registered_kept n y') as (_ & _ & Sn). split; [exact Sn|]. split; [|discriminate].
-      intros _ [F|F]; [congruence|]. destruct y' as [|yd|td]; try reflexivity.
-      apply check_xy_teacher in C. exfalso. apply (F td). exact C.
+      rewrite set_teacher_registered. split; [apply same_node_set_teacher|]. split; [|discriminate].
+      intros _ Tn. apply set_teacher_id. exact Tn.
     + intro H; inversion H; subst. intros _. split; [apply same_node_refl|]. split; auto. discriminate.
   - destruct (check_xy n x _ true false true) as [[x' y']|e0].
     + destruct (partial_fit_op n x' y') as [[n1|e1]|[]]; try discriminate.
@@ -404,13 +412,12 @@ Proof.
   unfold train_op. destruct (seq2 x) as [[t f]|]; [|discriminate].
   set (ydata := match y with YData yd => seq2 yd | _ => None end). clearbody ydata.
   destruct (teacher n) as [td|].
-  - assert (G :
-      (match (if initialized n then ROk n else initialize n [f] (match ydata with Some (_, m) => Some m | None => td end)) with
-       | RErr e => Err PInit e n
+  - assert (G : (match (if initialized n then ROk n else initialize n [f] (match ydata with Some (_, m) => Some m | None => td end)) with
+       | RErr e => Err PInit e (set_teacher n None)
        | ROk n1 =>
            if negb (match input_dim n1 with Some d => lnat_eqb d [f] | None => false end) then Irregular
            else match td with
-                | None => Err PCore RuntimeError n1
+                | None => Err PCore RuntimeError (set_teacher n1 None)
                 | Some tdim => if width n1 =? tdim
                                then Ok (set_teacher (bump_params (bump_state n1) false) None) (Some (t, width n1))
                                else Irregular
@@ -738,30 +745,9 @@ Proof.
     destruct (inputs_of (nkind n) x') as [[[|[|r]] xf]|]; try discriminate. apply F.
   - destruct (check_xy n x None false true true) as [[x' y']|e0]; [|discriminate]. apply F.
   - destruct (check_xy n x y false false true) as [[x' y']|e0]; [|discriminate].
-    fold (registered n y'). unfold train_op. destruct (seq2 x') as [[t f]|]; [|discriminate].
-    set (ydata := match y' with YData yd => seq2 yd | _ => None end). clearbody ydata.
-    destruct (teacher (registered n y')) as [td|] eqn:Tr.
-    + assert (G :
-        (match (if initialized (registered n y') then ROk (registered n y')
-                else initialize (registered n y') [f] (match ydata with Some (_, m) => Some m | None => td end)) with
-         | RErr e => Err PInit e (registered n y')
-         | ROk n1 =>
-             if negb (match input_dim n1 with Some d => lnat_eqb d [f] | None => false end) then Irregular
-             else match td with
-                  | None => Err PCore RuntimeError n1
-                  | Some tdim => if width n1 =? tdim
-                                 then Ok (set_teacher (bump_params (bump_state n1) false) None) (Some (t, width n1))
-                                 else Irregular
-                  end
-         end) = Ok n' out -> teacher n = None -> teacher n' = None).
-      { destruct (if initialized (registered n y') then _ else _) as [n1|]; [|discriminate].
-        destruct (negb _); [discriminate|]. destruct td as [tdim|]; [|discriminate].
-        destruct (width n1 =? tdim); [|discriminate]. intro H; inversion H; subst. reflexivity. }
-      destruct y'; destruct ydata as [[ty m]|]; try exact G; discriminate.
-    + destruct ydata as [[ty m]|]; [|discriminate]. destruct (negb _); [discriminate|].
-      destruct (if initialized (registered n y') then _ else _) as [n1|] eqn:E; [|discriminate].
-      apply init_if_needed_teacher in E. destruct (_ && _); [|discriminate].
-      intro H; inversion H; subst. simpl. congruence.
+    fold (registered n y'). intros H _.
+    assert (A : after (registered n y') (train_op (registered n y') x' y') = Some n') by (rewrite H; reflexivity).
+    apply train_op_after in A. tauto.
   - destruct (check_xy n x _ true false true) as [[x' y']|e0]; [|discriminate].
     destruct (partial_fit_op n x' y') as [[n1|e1]|[]] eqn:E; try discriminate.
     intro H; inversion H; subst. clear H. revert E. unfold partial_fit_op.
@@ -783,4 +769,15 @@ Proof.
     destruct (nkind n1); try (match goal with |- context [if ?c then _ else _] => destruct c end); try discriminate;
       intro H; inversion H; subst; simpl;
       destruct (match nkind n with KIPReservoir _ => true | _ => false end); simpl; congruence.
+Qed.
+
+(* whatever its outcome (accepted, rejected in any phase), a train call leaves no teacher registered *)
+Lemma train_clears_teacher (n n' : node) x y : after n (step n (OTrain x y)) = Some n' -> teacher n = None -> teacher n' = None.
+Proof.
+  unfold step. destruct (negb _); [simpl; intro H; inversion H; subst; auto|].
+  destruct (check_xy n x y false false true) as [[x' y']|e0]; [|simpl; intro H; inversion H; subst; auto].
+  fold (registered n y'). intros H _.
+  assert (A : after (registered n y') (train_op (registered n y') x' y') = Some n').
+  { destruct (train_op (registered n y') x' y'); simpl in *; exact H. }
+  apply train_op_after in A. tauto.
 Qed.
